@@ -27,4 +27,49 @@ SPECS = {
   "exhaustive_note": "the 2x3x5 (direction,state,stimulus) table is enumerated completely on every run; thorough enumerates all 65536 NOTIFICATION (code,subcode) pairs",
   "assumptions": ENGINE_V,
  },
+
+ "C16": {
+  "level": "exploration",
+  "passes": [codec("^TestC16$")],
+  "rule": "family alpha: every byte string of length <= 5 (quick) / <= 6 (thorough) over the 12-symbol protocol alphabet {00,01,02,03,04,0e,0f,10,40,80,90,ff} (exhaustive); "
+          "family mixed: seeded grammar-generated UPDATE bodies (0-20 attributes, duplicates, MP attributes, extended length), 1-3 structural mutations of them, random strings, "
+          "bodies up to 4077 bytes and bodies of 65535..131072 bytes with boundary length fields; family trunc: every truncation point and every +-1 byte tweak of grammar bodies. "
+          "Each input is decoded by the real UpdateDecoder with recording callbacks and compared call-by-call with internal/ref.PartitionUpdate. "
+          "distinct_nontrivial = distinct (abort reason, overrun, MP-duplicate, missing-mandatory, section emptiness, attribute count, length class) classes hit.",
+  "exhaustive_note": "family alpha enumerates its string space completely",
+  "assumptions": ["reference parser internal/ref/update.go (about 60 lines, written from RFC 4271 4.3 / RFC 7606 3-5) is the trusted base", "callbacks return nil (C17 covers failing callbacks)"],
+ },
+ "C17": {
+  "level": "exploration",
+  "passes": [codec("^TestC17$")],
+  "rule": "family decode/alpha: the C16 input mix, each with a seeded plan of callback results (nil / attribute-discard / treat-as-withdraw / *Notification / foreign / errors.Join / %w-wrapped / other UpdateError, at any callback position); "
+          "oracle = nil-ness, strongest class in the returned tree, containment (by identity) of every callback error, callbacks stopping after a session-reset-class error, Missing Well-known Attribute fallback, "
+          "and UpdateNotificationFromErr vs a reference pre-order walk. family trees: every error tree with <= 6 (quick) / <= 7 (thorough) nodes over 6 leaf kinds and {%w wrap, Join of 2, Join of 3} (exhaustive); "
+          "family randtrees: random trees of 8-12 nodes. distinct_nontrivial = distinct (partition class x callback plan) classes and sampled distinct tree shapes.",
+  "exhaustive_note": "family trees enumerates all trees up to the stated node count; family alpha all alphabet strings up to length 4/5",
+  "assumptions": ["reference classifier and reference tree walk in checks/codec/c16_c17_test.go + internal/ref/update.go are the trusted base"],
+ },
+
+ "C18": {
+  "level": "exploration",
+  "passes": [codec("^TestC18$")],
+  "rule": "family short: for each of the 11 attribute decoders, all 256 flag octets x every value of length 0..1 (quick) / 0..2 (thorough), exhaustive; family lengths: boundary value lengths "
+          "(rule length +-1, 12/24/36, 254..257, 1020, 4092, 4096) with random content under random and correct flags; family aspath: grammar-generated AS_PATH segment lists (1-6 segments, both types, 1-255 ASNs), "
+          "truncated and mutated; family flags: accessors and Validate over all 256 octets x 4 expectations. Oracle: accept/reject, decoded value, RFC 7606 approach and RFC 4271 fallback subcode vs internal/ref.AttrTable. "
+          "distinct_nontrivial = distinct (attribute, O/T bits, verdict, class, length class) cells hit.",
+  "exhaustive_note": "families short and flags enumerate their spaces completely",
+  "assumptions": ["reference table internal/ref/attrs.go is the trusted base; when flags and value are both malformed either fallback subcode is accepted; NOTIFICATION data is not compared"],
+ },
+
+ "C19": {
+  "level": "exploration",
+  "passes": [codec("^TestC19$")],
+  "rule": "family lists: seeded prefix lists (0-300 entries, every prefix length, random bits incl. non-zero host bits, path ids) encoded and pushed through the six exported wrappers "
+          "(NLRI / withdrawn, plain / add-path, IPv6 MP helpers), then every truncation point and every octet overwritten with 9 boundary values; family single: every length octet 0..255 x 0..21 trailing bytes per wrapper; "
+          "family mpreach: every next-hop length octet 0..255 x body sizes around 4+nh+1 and 4077 x 6 flag octets; mpreachflags: all 256 flag octets; mpunreach: lengths 0..40, 4077; nexthops: lengths 0..64, 255. "
+          "Oracle: reference encoder/decoder internal/ref/prefix.go (count, order, path id, bit length, leading address bits; failure NOTIFICATION (3,10)/(3,0)/(3,5); closure not run on failure). "
+          "distinct_nontrivial = distinct (entry point, verdict, list size / next-hop length, flags, length class) cells.",
+  "exhaustive_note": "families single, mpreach (next-hop length octet), mpreachflags and nexthops enumerate their stated spaces completely",
+  "assumptions": ["reference decoder internal/ref/prefix.go is the trusted base; address bits beyond the prefix length are not compared (the statement speaks of address bits of the prefix)"],
+ },
 }
